@@ -277,6 +277,10 @@ pub(crate) fn wakes(id: usize) -> u32 {
     unsafe { WAKES[id] }
 }
 
+pub(crate) fn waker_clones(id: usize) -> i32 {
+    unsafe { WAKER_CLONES[id] }
+}
+
 pub(crate) fn wake_stamp(id: usize) -> u32 {
     unsafe { WAKE_STAMP[id] }
 }
